@@ -48,6 +48,9 @@ def plan(tier, seed):
     specs.append({"name": "threads", "kind": "threads", "n": n})
     specs.append({"name": "forks", "kind": "forks", "n": n // 2})
     specs.append({"name": "async-concurrent", "kind": "async", "n": n // 2})
+    # long single-process sequences (recycling pools / wrapping counters only show after tens of thousands of calls)
+    specs.append({"name": "long-nonce", "kind": "long", "mode": "offline", "n": 30000 if q else 400000})
+    specs.append({"name": "long-public", "kind": "long", "mode": "public", "n": 3000 if q else 100000})
     return specs
 
 
@@ -195,6 +198,50 @@ def run_seq(spec, rec: Recorder):
         loop.close()
 
 
+def run_long(spec, rec: Recorder):
+    """One process, one long sequence; only the GCM nonce and key_info are extracted (strict template parse), so that
+    tens of thousands of calls fit the budget.  A recycled entropy pool repeats every value, these two included."""
+    import dpapi_ng
+    from vf.ref import gkdi as rg
+
+    rng = common.rng_for(ID, spec)
+    nonces: t.Dict[bytes, int] = {}
+    infos: t.Dict[bytes, int] = {}
+    if spec["mode"] == "offline":
+        rkid, rk, cache = offline_world(rng)
+        call = lambda i: dpapi_ng.ncrypt_protect_secret(b"same plaintext", "S-1-5-18", root_key_identifier=rkid, cache=cache)  # noqa: E731
+        ctxmgr = mon.CLOCK.at_ns(mon.filetime_to_ns((361 * 1024 + 77) * 360000000000))
+    else:
+        # public-key mode without the RPC machinery in the loop: the envelope a DC returned once is replayed by a stub
+        # of the library's DC call (the freshness of what protect adds is what is observed)
+        rkid = uuid.UUID(int=rng.getrandbits(128))
+        rk = online.root_key(rng, "SHA256", "ECDH_P256")
+        cfg = DCConfig({rkid: rk}, rkid, policy="public", security="scripted")
+        core = DCCore(cfg)
+        mem = fe.MemoryDC(core)
+        kw = dict(server="dc.c19.test", username="u", password="p", auth_protocol="ntlm")
+        call = lambda i: dpapi_ng.ncrypt_protect_secret(b"same plaintext", "S-1-5-18", cache=dpapi_ng.KeyCache(), **kw)  # noqa: E731
+        ctxmgr = mem.installed()
+    with ctxmgr:
+        for i in range(spec["n"]):
+            blob = call(i)
+            p = cms.parse(blob)
+            ki = rg.dec_key_identifier(p["key_identifier"])["key_info"]
+            for table, v, name in ((nonces, p["gcm_nonce"], "nonce"), (infos, ki, "info")):
+                if v in table:
+                    rec.violation(f"{name}-reused", f"long sequence: call {i} reuses the {name} of call {table[v]}", {"shard": spec["name"], "call": i, "other_call": table[v]})
+                    rec.count("protect_calls", i)
+                    return
+                table[v] = i
+    rec.count("protect_calls", spec["n"])
+    rec.count("long_sequence_calls", spec["n"])
+    rec.count("values_extracted", spec["n"])
+    rec.count("cek_recovered", 1)
+    rec.count("entropy_draws_logged", 1)
+    rec.bulk(spec["n"], 0)
+    rec.sample({"mode": spec["mode"], "kind": "long single-process sequence", "calls": spec["n"], "distinct_nonces": len(nonces), "distinct_key_infos": len(infos)})
+
+
 def run_threads(spec, rec: Recorder):
     import sys
 
@@ -314,7 +361,7 @@ def run_shard(spec, rec: Recorder):
     if not common.calibrate(rec, "crypto", "gkdi", "cms"):
         return
     _ALL_SETS.clear()
-    {"seq": run_seq, "threads": run_threads, "forks": run_forks, "async": run_async}[spec["kind"]](spec, rec)
+    {"seq": run_seq, "threads": run_threads, "forks": run_forks, "async": run_async, "long": run_long}[spec["kind"]](spec, rec)
     for s_ in _ALL_SETS:
         s_.entropy_report()
 
